@@ -9,7 +9,6 @@
  "thorough_defines": ["C19_SMAX=16", "C19_BMAX=64", "VERIF_STRMAX=400", "AWS_MMAX=400", "AWS_OUTMAX=400"],
  "models": ["models/libc_string.c", "models/aws_hash.c", "models/aws_fmt.c", "models/aws_time.c"],
  "instrument_flags": ["--nondet-static-exclude", "hexchars"],
- "cbmc": ["--malloc-may-fail", "--malloc-fail-null"],
  "loop_contracts": false,
  "bounded": true,
  "bound": "every string argument: all strings of <= 8 characters (thorough: 16); body absent, empty or <= 8 bytes (thorough: 64), bodylen arbitrary when the body is absent; formatted strings compared in normal form (models/aws_stream.h), not as rendered bytes; every loop has a compile-time-constant bound and is fully unwound (unwinding assertions on)",
@@ -18,6 +17,7 @@
                  "asprintf is modelled (models/aws_fmt.c): records what is to be printed for %s %d %% in normal form, result bytes abstract; util/asprintf.c itself is not part of the proof (DFCC cannot instrument variadic functions); util/hexify.c is the real code",
                  "time/gmtime_r/strftime modelled (models/aws_time.c): arbitrary time_t, gmtime_r an uninterpreted function of it with well-formed values (years 1000..9999), strftime for %Y %m %d %H %M %S",
                  "inputs the published algorithm would URI-encode are over the URI-unreserved alphabet (paths: plus '/'), as property C19 quantifies; the secret and the body are arbitrary bytes",
+                 "SUCCESS PATH ONLY: asprintf, malloc and time do not fail in this group (a symbolic execution that merges the error paths back makes the ghost trace symbolic and the comparison intractable); the failure paths are group C19/fail_paths",
                  "the comparison with spec/sigv4_spec.h is a set of harness-level obligations after the call (lockstep, harness/C19/c19.h)"]
 }
 */
@@ -74,6 +74,4 @@ h_s3_headers(void)
 	VCOVER(rc == 0 && nobody && bodylen > C19_BMAX);
 	VCOVER(rc == 0 && strlen(key_id) == C19_SMAX && strlen(secret) == 0 && strlen(region) == 1);
 	VCOVER(rc == 0 && strlen(method) == 3 && strlen(bucket) == 0 && strlen(path) == C19_SMAX && path[0] == '/');
-	VCOVER(rc == -1 && g_aws_n == 7);
-	VCOVER(rc == -1 && g_aws_n == 0 && g_aws_time.time_calls == 1);
 }
